@@ -9,10 +9,12 @@ verus! {
 global size_of usize == 8;
 //@include prelude/std_contracts.rs
 //@include prelude/list_core_std.rs
+//@include prelude/dg.rs
 //@include prelude/conversions_std.rs
 
 //@import units/inc/matrix_core.inc.rs
-//@import units/inc/edge_list_core.inc.rs
+// AdjacencyList::{from (rows), empty} (needed by AdjacencyList::random_tournament via `trivial`) live in the conversions fragment
+//@import units/inc/conversions.inc.rs
 
 //@include units/inc/random_gen.inc.rs
 } // verus!
